@@ -155,6 +155,35 @@ def h_scalar_field(env):
         env.check("oracle:reference-decodes-spec-bytes", shapes.ref_scalar_equal(getattr(r2, "v"), v, kind))
 
 
+def h_float_positions(env):
+    """float / double in optional, repeated (2 elements) and oneof position: bytes bit-identical to the spec encoder (and to the reference's)"""
+    from .. import catalogue, shapes
+    from ..spec import specmsg as sm
+
+    kind, label = env.params["kind"], env.params["label"]
+    cat = catalogue.get(["s1", kind, label])
+    mod = shapes.build_bp(cat)
+    if label == "repeated":
+        val = {"v": [shapes.sym_scalar(env, "a", kind), shapes.sym_scalar(env, "b", kind)]}
+    else:
+        val = {"v": shapes.sym_scalar(env, "a", kind)}
+    m = sm.to_bp(mod, cat, "M", val)
+    data = bytes(m)
+    env.observe("bytes", data)
+    spec = sm.spec_encode(cat, "M", val)
+    env.check("bytes==spec", data == spec)
+    back = mod.M().parse(data)
+    got = back.v if label == "repeated" else [back.v]
+    want = val["v"] if label == "repeated" else [val["v"]]
+    env.check("decode-bit-identical", len(got) == len(want) and all(shapes.float_same(x, y, kind) for x, y in zip(got, want)))
+    if not env.sym:
+        from .. import sym as _sym
+
+        ref = shapes.build_ref(cat)
+        r = sm.to_ref(ref, cat, "M", val)
+        env.check("oracle:spec-bytes==reference-bytes", r.SerializeToString() == _sym.wire(spec))
+
+
 def units(tier):
     u = [
         ("varint_roundtrip", h_varint_roundtrip, {}),
@@ -166,6 +195,9 @@ def units(tier):
         u.append(("decode_arbitrary[n=%d]" % n, h_decode_arbitrary, {"n": n}))
     for kind in INT_KINDS + ["bool", "float", "double"]:
         u.append(("scalar_field[%s]" % kind, h_scalar_field, {"kind": kind}))
+    for kind in ("float", "double"):
+        for label in ("optional", "repeated", "oneof"):
+            u.append(("float_positions[%s %s]" % (kind, label), h_float_positions, {"kind": kind, "label": label}))
     return u
 
 
